@@ -30,7 +30,7 @@ ASSUMPTIONS = ['expected values come from the real offline monitor on each prefi
 REAL = common.REAL_ALL
 STUBS = common.STUBS_ALL
 INTERLEAVING_MEASURE = 'distinct (history length, horizon, notation class) tuples'
-PROBES = ['horizon_gt_3', 'sibling_horizons_differ', 'explicit_units', 'no_future_operator', 'past_above_future', 'next_used']
+PROBES = ['horizon_gt_3', 'sibling_horizons_differ', 'explicit_units', 'no_future_operator', 'past_above_future', 'next_used', 'modular_specification']
 ENVELOPE_RULES = ['memory-past-above-delayed: a memoryful past operator (rise fall prev s_prev once historically since, bounded or '
                   'not) above a sub-formula with horizon > 0 (known finding F08)',
                   'partial-function-over-delayed: log(x, base) whose operands have different horizons (known finding F08b)']
@@ -70,12 +70,48 @@ def _gen(rng, tier):
         other = sg.gen_formula(rng, sg.GenCfg(vars=vars_, ops=ops, max_depth=2, max_bound=2))
         ast = [rng.choice(['and', 'or', 'implies']), ast, other] if rng.random() < 0.5 else \
               [rng.choice(['and', 'or', 'implies']), other, ast]
+    modular = rng.random() < 0.25
+    shared = None
+    if modular and not pure_past and rng.random() < 0.5:
+        # one sub-formula used at two places that need different delays
+        shared = sg.gen_formula(rng, sg.GenCfg(vars=vars_, ops=ops, max_depth=rng.randint(1, 2), max_bound=2))
+        if shared[0] in ('var', 'const'):
+            shared = None
+    if shared is not None:
+        def wrap(x):
+            for _ in range(rng.randint(1, 2)):
+                o = rng.choice(['eventually_b', 'always_b', 'next', 'not', 'once_b'])
+                x = [o, x] if o in ('next', 'not') else [o, rng.randint(0, 1), rng.randint(1, 3), x]
+            return x
+        l, r_ = wrap(shared), (shared if rng.random() < 0.6 else wrap(shared))
+        if rng.random() < 0.5:
+            l, r_ = r_, l
+        ast = [rng.choice(['and', 'or', 'implies']), l, r_]
     h = sg.horizon(ast)
     notation = units.gen_notation(rng)
-    text = 'out = ' + sg.to_text(ast, sg.Spelling(rng), units.bounds_printer(notation, rng)) + ';'
+    subspecs = None
+    if modular and sg.size(ast) >= 4:
+        # the same formula written with named sub-specifications (referred to at places that need different delays)
+        if shared is not None:
+            def cut(x):
+                if sg.key(x) == sg.key(shared):
+                    return ['ref', 'p1']
+                return sg.with_children(x, [cut(c) for c in sg.children(x)])
+            defs, top = [['p1', shared]], cut(ast)
+        else:
+            defs, top = sg.modularize(rng, ast, max_subs=3)
+        sp, bp = sg.Spelling(rng), units.bounds_printer(notation, rng)
+        subs = ['%s = %s;' % (nm, sg.to_text(a, sp, bp)) for nm, a in defs]
+        text = 'out = ' + sg.to_text(top, sp, bp) + ';'
+        if rng.random() < 0.5:
+            text = '\n'.join(subs + [text])
+        else:
+            subspecs = subs
+    else:
+        text = 'out = ' + sg.to_text(ast, sg.Spelling(rng), units.bounds_printer(notation, rng)) + ';'
     n = int(h) + rng.randint(1, 16 if big else 10) if h != float('inf') else 5
     data = world.gen_trace(rng, vars_, n)
-    return {'vars': vars_, 'ast': ast, 'text': text, 'n': n, 'data': data, 'notation': notation,
+    return {'vars': vars_, 'ast': ast, 'text': text, 'subspecs': subspecs, 'n': n, 'data': data, 'notation': notation,
             'times': units.stamps(notation, n)}
 
 
@@ -87,6 +123,9 @@ def run(sc):
     text = sc.get('text') or ('out = ' + sg.to_text(ast, None, units.bounds_printer(notation, None)) + ';')
     times = sc['times']
     base = {'vars': common.var_decls(sc['vars']), 'spec': text}
+    if sc.get('text') and (sc.get('subspecs') or '\n' in text):
+        base['subspecs'] = sc.get('subspecs') or []
+        r.probes['modular_specification'] += 1
     base.update(units.spec_config(notation))
     on_desc = dict(base, cls='dt_on', pastify=True)
     off_desc = dict(base, cls='dt_off')
